@@ -2238,3 +2238,23 @@ Proof.
       intros [t Hin]. rewrite Et in Hin. contradiction.
     + intros u s2 O2. apply own_nil_empty. exact O2.
 Qed.
+
+(* ---- safety of f follows from the cleanliness of "f then destroy" *)
+Lemma clean_bind_nofault {A B} (m : ow_M A) (k : A -> ow_M B) F s : ow_clean_to F (ow_bind m k) s -> ow_nofault m s.
+Proof. unfold ow_clean_to, ow_nofault, ow_wp, ow_bind. destruct (m s); auto. Qed.
+
+(* ---- closed corollaries from the initial (empty) heap: every schedule *)
+Theorem ow_connp_lifecycle_from_init sched :
+  ow_wp (p <- ow_connp_create ;; ow_connp_destroy_all p) (fun _ s' => oos_live s' = []) (ow_init sched).
+Proof.
+  eapply wp_mono. { apply ow_then_destroy_clean_connp_create with (F := []). apply ow_init_own. }
+  intros u s' O. apply own_nil_empty. exact O.
+Qed.
+
+Theorem ow_conn_lifecycle_from_init sched hc hs :
+  ow_wp (c <- ow_conn_create ;;
+         match c with
+         | None => ow_ret tt
+         | Some c => r <- ow_conn_open c hc hs ;; ow_conn_destroy (Some (snd r))
+         end) (fun _ s' => oos_live s' = []) (ow_init sched).
+Proof. apply ow_create_open_destroy_clean. apply ow_init_own. Qed.
